@@ -19,8 +19,15 @@ import (
 	"golang.org/x/tools/go/ssa/ssautil"
 )
 
+type CaseDef struct {
+	Name string
+	LHS  *SpecExpr
+	RHS  *SpecExpr
+}
+
 type Clause struct {
 	Kind  string // requires, ensures, panics_when
+	Case  string // checked only in the named case run
 	Label string
 	Props []string
 	Modes []string // empty = all
@@ -63,6 +70,7 @@ type FuncContract struct {
 	Loops      map[int]*LoopContract
 	AllocBound *SpecExpr
 	Ghosts     []specParam
+	Cases      []CaseDef
 	Modifies   []string
 	Props      []string
 	NoFrame    bool
@@ -354,12 +362,33 @@ func (e *Engine) parseContractLines(p *packages.Package, file string, lines []st
 				continue
 			}
 			cur.Ghosts = append(cur.Ghosts, specParam{fs[0], fs[1]})
+		case "case":
+			// case NAME: lhs == constant   (the function is verified once more with lhs bound to the constant)
+			nm, r := splitLabel(rest)
+			k := topLevelIndex(r, "==")
+			if nm == "" || k < 0 {
+				fail("case syntax: case NAME: expr == constant", t)
+				continue
+			}
+			l, err1 := parseSpec(r[:k])
+			rr, err2 := parseSpec(r[k+2:])
+			if err1 != nil || err2 != nil {
+				fail("case parse error", t)
+				continue
+			}
+			cur.Cases = append(cur.Cases, CaseDef{Name: nm, LHS: l, RHS: rr})
 		case "requires", "ensures", "panics_when":
 			if cur == nil {
 				fail("clause outside func", t)
 				continue
 			}
 			props, r := splitProps(rest)
+			caseName := ""
+			if strings.HasPrefix(r, "case=") {
+				fs := strings.SplitN(r, " ", 2)
+				caseName = strings.TrimPrefix(fs[0], "case=")
+				r = strings.TrimSpace(fs[1])
+			}
 			label, r := splitLabel(r)
 			se, err := parseSpec(r)
 			if err != nil {
@@ -369,7 +398,7 @@ func (e *Engine) parseContractLines(p *packages.Package, file string, lines []st
 			if label == "" {
 				label = fmt.Sprintf("%s%d", word, len(cur.Clauses)+1)
 			}
-			cur.Clauses = append(cur.Clauses, &Clause{Kind: word, Label: label, Props: props, Modes: curModes, Expr: se, Line: t})
+			cur.Clauses = append(cur.Clauses, &Clause{Kind: word, Case: caseName, Label: label, Props: props, Modes: curModes, Expr: se, Line: t})
 		case "alloc_bound":
 			se, err := parseSpec(rest)
 			if err != nil {
